@@ -292,15 +292,18 @@ fn exec(case: &Value) -> Value {
 
 fn restrict_problem(rng: &mut Rng, sp: &mut SProblem) {
     let n = sp.n;
+    let depots: BTreeSet<usize> =
+        sp.vehicles.iter().flat_map(|v| v.shifts.iter()).flat_map(|s| std::iter::once(s.start_loc).chain(s.reloads.iter().map(|r| r.loc))).collect();
     for j in sp.jobs.iter_mut() {
         for t in j.tasks.iter_mut() {
             // alternative places of one task at the same location are told apart by the checker's matcher through the
             // first tag only (open deviation D2): keep them at different locations in the main stream
             if t.places.len() == 2 && t.places[0].loc == t.places[1].loc {
-                if n >= 2 {
-                    t.places[1].loc = (t.places[0].loc + 1 + rng.usize(0, n - 2)) % n;
-                } else {
+                let free: Vec<usize> = (0..n).filter(|l| *l != t.places[0].loc && !depots.contains(l)).collect();
+                if free.is_empty() {
                     t.places.truncate(1);
+                } else {
+                    t.places[1].loc = *rng.pick(&free);
                 }
             }
             // a service that spans two windows is matched to the later window (open deviation D4): keep gaps large
@@ -316,6 +319,14 @@ fn restrict_problem(rng: &mut Rng, sp: &mut SProblem) {
         }
     }
     for v in sp.vehicles.iter_mut() {
+        // `get_vehicle_shift` takes the first shift whose time range meets the tour, whatever `shiftIndex` says: an
+        // open-ended earlier shift swallows the tours of later shifts (open deviation D7)
+        let n_shifts = v.shifts.len();
+        for (k, s) in v.shifts.iter_mut().enumerate() {
+            if k + 1 < n_shifts && s.end.is_none() {
+                s.end = Some(SShiftEnd { earliest: None, latest: s.start_earliest + 2300, loc: s.start_loc });
+            }
+        }
         for s in v.shifts.iter_mut() {
             // reloads of one shift that share location and tag but differ in duration are not told apart (open deviation D3)
             let tagged = s.reloads.iter().all(|r| r.tag.is_some());
@@ -392,8 +403,17 @@ fn vehicle_type_index(sp: &SProblem, vid: &str) -> Option<usize> {
 fn hits_open_deviation(sp: &SProblem, sol: &Value) -> Option<&'static str> {
     for t in sol["tours"].as_array().unwrap() {
         let stops = t["stops"].as_array().unwrap();
-        for s in stops {
+        for (si, s) in stops.iter().enumerate() {
             let acts = acts_of(s);
+            // D5: a break merged into the departure stop moves the stop's departure, which the checker takes as tour start
+            if si == 0 && acts.iter().any(|a| a["type"] == "break") {
+                return Some("break_in_departure_stop");
+            }
+            // D6: a job served at the first stop of a load interval (departure / reload stop) is a "load mismatch"
+            let starts_interval = si == 0 || acts.first().map(|a| a["type"] == "reload").unwrap_or(false);
+            if starts_interval && acts.iter().any(|a| is_job_type(a["type"].as_str().unwrap())) {
+                return Some("job_at_interval_start");
+            }
             // D1a: a break strictly inside a stop is counted twice by `check_break_assignment`
             for (k, a) in acts.iter().enumerate() {
                 if a["type"] == "break" && k > 0 && k + 1 < acts.len() {
@@ -843,7 +863,13 @@ fn solve(sp: &SProblem, generations: usize) -> Option<Value> {
     isolated(1, move || {
         let problem = sp.read().ok()?;
         let (_, json) = solve_default(problem, quiet_env(), generations).ok()?;
-        Some(simplify_solution(&json))
+        let mut sol = simplify_solution(&json);
+        // the cost is ignored by the checker (and fractional with scaled profiles)
+        sol["statistic"]["cost"] = json!(0);
+        for t in sol["tours"].as_array_mut().unwrap() {
+            t["statistic"]["cost"] = json!(0);
+        }
+        Some(sol)
     })
     .ok()
     .flatten()
